@@ -12,7 +12,9 @@ RULE = ("one Hypothesis search per configuration: stabilizer (constructed member
         "complementations, local Cliffords, generator basis, signs, input format) x state (Clifford+T, rotation circuits with "
         "continuous angles, GHZ-/W-like templates; mixed states of 2..3 components by injection behind an empty preparation "
         "circuit); plus all stabilizer groups for n = 2, 3 and one constructed member of every (configuration, LC class) for n = 4..6 "
-        "with a drawn state each, so every table circuit serves as a readout circuit at least once. The returned measurement circuit is dense-"
+        "with a drawn state each, so every table circuit serves as a readout circuit at least once; for the same subjects also a "
+        "preparation circuit that ENDS with the first 1..5 gates of the readout circuit undone in reverse order (exactly, with one CX "
+        "written control<->target, or with one gate repeated) -- the junction where gate cancellation would act. The returned measurement circuit is dense-"
         "simulated, its exact outcome distribution handed to StabilizerMeasurementFitter via a duck-typed result. A case is one "
         "(stabilizer, state, configuration). Non-trivial = the state is not an eigenstate of the whole group (some |value| < "
         "1 - 1e-3) and the readout circuit maps >= 1 unsigned group element to a negative Z-type operator; distinct by "
@@ -119,6 +121,65 @@ def classify_h(case):
                 "result_object": info.get("job", "?")}
 
 
+INV = {"h": "h", "s": "sdg", "sdg": "s", "x": "x", "y": "y", "z": "z", "cx": "cx", "cz": "cz", "swap": "swap", "id": "id"}
+
+
+def junction_ops(n, name, gens, rng):
+    """preparation circuit whose END meets the BEGINNING of the readout circuit: after a short generic prefix come the first k readout
+    gates undone in reverse order -- exactly (gates that truly cancel at the junction), with one CX written with control and target
+    exchanged (not an inverse), or with one gate repeated instead of inverted.  None if the readout has no gates."""
+    import math
+    L = libif.lib()
+    try:
+        qc0 = L.tomo.stabilizer_measurement_circuit(L.QuantumCircuit(n), sweep.make_stabilizer(n, gens, "strings+sign"), name)
+        ro = [(o[0], tuple(o[1])) for o in tomo.measurement_ops(qc0)]
+    except Exception:  # noqa: BLE001
+        return None, None
+    if not ro or any(g not in INV for g, _ in ro):
+        return None, None
+    k = rng.randrange(1, min(len(ro), 5) + 1)
+    head = ro[:k]
+    variant = rng.choice(["exact", "exact", "mirrored-cx", "repeated"])
+    cx_at = [j for j, (g, _) in enumerate(ro[:10]) if g == "cx"]
+    if cx_at and (variant == "mirrored-cx" or rng.random() < 0.5):      # reach the first CX of the readout whenever there is one early on
+        variant = "mirrored-cx"
+        k = cx_at[0] + 1
+        head = ro[:k]
+    tail = []
+    twisted = False
+    for j, (g, qs) in enumerate(head):
+        if variant == "mirrored-cx" and g == "cx" and not twisted:
+            tail.append(["cx", [qs[1], qs[0]]]); twisted = True
+        elif variant == "repeated" and not twisted and INV[g] != g:
+            tail.append([g, list(qs)]); twisted = True
+        else:
+            tail.append([INV[g], list(qs)])
+    tail.reverse()
+    ops = []
+    for q in range(n):
+        ops.append(["ry", [q], [rng.uniform(0, 2 * math.pi)]])
+        ops.append(["rz", [q], [rng.uniform(0, 2 * math.pi)]])
+    for q in range(n - 1):
+        ops.append(["cx", [q, q + 1]])
+        ops.append(["ry", [q + 1], [rng.uniform(0, 2 * math.pi)]])
+    return ops + tail, f"{variant}{'' if twisted or variant == 'exact' else '(not applicable)'}:k={k}"
+
+
+def run_junction(rep, n, name, gens, rng):
+    ops, how = junction_ops(n, name, gens, rng)
+    if ops is None:
+        rep.count("junction", "no readout gates")
+        return
+    case = {"n": n, "connectivity": name, "strings": sweep.strings(gens, n), "format": "strings+sign",
+            "components": [{"w": [1, 1], "ops": ops}], "zero_seed": rng.randrange(10 ** 6)}
+    fails, info = check_measure(case)
+    rep.case((n, name, tuple(case["strings"]), repr(ops), "junction") if info["non_eigen"] else None, dict(case, junction=how) if (n == 4 and name == "star" and len(rep.samples) < 1) else None)
+    rep.count("junction", how.split(":")[0])
+    rep.count("state_kind", "pure(preparation ends where the readout begins)")
+    for key, msg, extra in fails:
+        rep.fail(key, case, msg + f" [preparation ends with the first readout gates undone: {how}]", **extra)
+
+
 def shard(arg):
     kind = arg[0]
     rep = fw.Report()
@@ -152,6 +213,8 @@ def shard(arg):
                 rep.count("state_kind", "pure(one member of every class x configuration)")
                 for key, msg, extra in fails:
                     rep.fail(key, case, msg, **extra)
+                if n <= 5 or fw.h64("c12j", seed, n, name, case["strings"]) % 2 == 0:
+                    run_junction(rep, n, name, gens, rng)
     else:
         # every group for n = 2, 3 x every configuration, with a drawn sign vector and a drawn rotation state
         _, n, shard_list, seed = arg
@@ -175,6 +238,7 @@ def shard(arg):
                 rep.count("state_kind", "pure(exhaustive groups)")
                 for key, msg, extra in fails:
                     rep.fail(key, case, msg, **extra)
+                run_junction(rep, n, name, gens, rng)
     return rep
 
 
